@@ -1,8 +1,8 @@
 #!/bin/sh
-# run the relevant quick checks against the 12 semantics-preserving refactorings in /tmp/refac/out (must all stay green)
+# run the relevant quick checks against the 12 semantics-preserving refactorings in /verif/seeded/refactorings (must all stay green)
 run() { k=$1; shift; for id in "$@"; do
   dir=$(mktemp -d /tmp/pvxref.XXXXXX); git -C /repo worktree add --detach -f "$dir/repo" HEAD >/dev/null 2>&1
-  if git -C "$dir/repo" apply /tmp/refac/out/$k/patch.diff; then
+  if git -C "$dir/repo" apply /verif/seeded/refactorings/$k/patch.diff; then
     PVX_REPO="$dir/repo" PVX_EVIDENCE_DIR="$dir/ev" PVX_REPLAY_DIR="$dir/rp" /verif/check $id quick > "$dir/out.txt" 2>&1; rc=$?
     echo "refactoring $k check $id exit $rc $(grep -E '^\[C' $dir/out.txt | tail -1 | cut -c1-160)"; grep -E "VIOLATION|HARNESS|INCONCL|detail" "$dir/out.txt" | head -4
   else echo "refactoring $k: patch does not apply"; fi
